@@ -105,6 +105,15 @@ def run_case(ctx, case_seed, i, scratch):
       os.remove(p)
   prog = transform.clone(prog)
   prog['annotations'] = list(prog['annotations']) + [('AttachDatabase', 'logica_home', db_path)] + [('Ground', p) for p in grounded]
+  # sometimes a grounded predicate is also ordered and limited: the stored table is its first K rows
+  for g in grounded:
+    cols = prog['preds'][g]['cols']
+    if rng.random() < 0.35 and all(not isinstance(t, tuple) and t != 'bool' for _, t in cols) and not prog['preds'][g].get('made'):
+      order = [c for c, _ in cols]
+      rng.shuffle(order)
+      keys = [c if rng.random() < 0.5 else c + ' desc' for c in order]
+      prog['annotations'] += [('OrderBy', g, keys), ('Limit', g, rng.choice([1, 2, 2, 3]))]
+      ctx.count('grounded_ordered_limited')
   text, _ = printer.program_text(prog)
   info = {'case_seed': case_seed, 'i': i}
   ctx.journal(dict(info, program=text))
@@ -131,7 +140,12 @@ def run_case(ctx, case_seed, i, scratch):
   for step, q in enumerate(history):
     before = dump_db(db_path)
     probe = sqlite_probe.Probe()
-    out = pipeline.run(text, q, rules=rules, probe=probe)
+    out = pipeline.run_like_logica_py(text, q, rules=rules, probe=probe)
+    if out.kind == 'rows':
+      ctx.count('script_runner_runs')
+      if getattr(out, 'script_output_matches', None) is False:
+        ctx.violation(None, 'run %d (%s): what sqlite3_logica.RunSqlScript printed is not the rows of the main statement' % (step, q),
+                      dict(info, program=text, history=history, step=step, predicate=q, printed=getattr(out, 'script_output', None), rows=out.rows[:10]))
     after = dump_db(db_path)
     ctx.count('runs')
     wit = dict(info, program=text, history=history, step=step, predicate=q, grounded=grounded)
@@ -230,7 +244,7 @@ def finalize(agg, tier):
   out = []
   c = agg['counters']
   for k in ('programs', 'runs', 'rows_ok', 'tables_checked', 'tables_ok', 'grounded_read_seen', 'reruns', 'rerun_identical', 'self_runs',
-            'self_run_left_table_alone', 'chains'):
+            'self_run_left_table_alone', 'chains', 'script_runner_runs', 'grounded_ordered_limited'):
     if not c.get(k):
       out.append('mandatory counter %s is zero' % k)
   return out
